@@ -64,7 +64,7 @@ TExpectWire == Step("expect_wire") /\ UNCHANGED <<avars, scen, poisoned, garbage
 TPanic == Step("panic") /\ UNCHANGED <<avars, scen, poisoned, garbage>> /\ Flag("C03/panic")
 THarness == Step("harness_error") /\ UNCHANGED <<avars, scen, poisoned, garbage>> /\ Flag("harness/script-error")
 
-Ignored == {"peer_part", "attach_call", "attach_pending", "wire", "released", "recv_call", "recv_pending", "recv_dropped", "send_call",
+Ignored == {"observed", "peer_part", "attach_call", "attach_pending", "wire", "released", "recv_call", "recv_pending", "recv_dropped", "send_call",
             "send_ret", "send_pending", "send_dropped", "sub_call", "sub_ret", "sub_pending", "sub_dropped", "pipe", "end"}
 TIgnore == l <= NRec /\ E.ev \in Ignored /\ l' = l + 1 /\ UNCHANGED <<avars, scen, poisoned, garbage>> /\ NoFlag
 
